@@ -18,7 +18,7 @@ claim('C12', 'model_checking',
       'explicit-state BFS over header-edit sequences with the marshalled bytes as the (exact) state, every transition executed on the real setters and judged by an independent decoder',
       'States are real marshalled messages; transitions are the public header setters (set / replace with every length 1..17 / delete, for 8 fields, plus stripping unknown fields). '
       'Depth 1 from every start message (all field permutations, both byte orders, unknown fields at every position), depth 2-3 from subsets. After every transition the bytes must decode '
-      'under the independent codec, the edited field must read back, and every other field, flags, serial, signature, unknown fields and body must be unchanged.',
+      'under the independent codec, the edited field must read back, and every other field, flags, serial, signature, unknown fields and body must be unchanged; every history is also applied without inspecting the message in between. Start messages include headers beyond 32 KiB and 64 KiB with fields behind the long value. Edits that fail for lack of memory (every allocation index) must leave a well-formed message in which nothing but the edited field differs.',
       'Trusts pyv/refdbus.py. Only API-legal edits are made (values valid per grammar, unlocked messages). Edit sequences longer than the depth bound are not covered.',
       'DESIGN.md section 4 C12')
 
